@@ -9,7 +9,7 @@ sys.path.insert(0, V)
 from rules import factcache, normalize
 
 fns = set()
-shape = {"adts": {}, "fns": {}, "enums": [], "consts": {}}
+shape = {"adts": {}, "fns": {}, "enums": [], "consts": {}, "traits": []}
 for cfg in ("default", "all", "none", "rel"):
     raw = json.load(open(factcache.gen("/repo", cfg)))
     for b in raw["bodies"]:
@@ -17,6 +17,7 @@ for cfg in ("default", "all", "none", "rel"):
     for f in raw["fns"]:
         fns.add(f["path"])
     shape["enums"] = sorted(set(shape["enums"]) | {a["path"] for a in raw["adts"] if a["kind"] == "Enum"})
+    shape["traits"] = sorted(set(shape["traits"]) | {t["path"] for t in raw["traits"] if not t["path"].startswith(("std::", "core::", "alloc::"))})
     for c in raw["consts"]:
         if "int" in c and not c["path"].endswith("::_"):
             shape["consts"].setdefault(c["path"], [c["ty"], c["int"]])
